@@ -50,6 +50,14 @@ pub fn apply_event(e: &mut Emu, kind: i64, a: i64, b: i64, tape_img: &[u8], asse
         9 => e.rewind_tape().map_err(|x| format!("rewind_tape: {:?}", x))?,
         10 => e.execute_poke(OnePoke([PokeAction::mem(a as u16, b as u8)])),
         11 => e.load_tape(Tape::Tap(make_asset(asset_kind, tape_img, chunk))).map_err(|x| format!("load_tape: {:?}", x))?,
+        12 => {
+            // a (second) snapshot loaded at a frame boundary in the middle of the run
+            let names: &[&str] = if b != 0 { &REPO_SNAS_128K } else { &REPO_SNAS_48K };
+            let name = names[(a as usize) % names.len()];
+            if let Some(bytes) = read_repo_gz(name) {
+                e.load_snapshot(Snapshot::Sna(make_asset(asset_kind, &bytes, chunk))).map_err(|x| format!("load_snapshot: {:?}", x))?;
+            }
+        }
         _ => {}
     }
     Ok(())
@@ -399,6 +407,9 @@ impl Property for C16 {
             } else if rng.bool() {
                 sc.op("ev", &[0, 7, 0, 0]);
             }
+        }
+        if content == 2 && rng.chance(1, 3) {
+            sc.op("ev", &[rng.range(1, (k - 1).max(1)), 12, rng.range(0, 5), sc.get("m128")]);
         }
         let n_ev = rng.range(0, 14);
         let mut tape_loaded = false;
